@@ -81,7 +81,14 @@ def correspondence(payload):
 
 def search(payload):
     trees, family = trees_for(payload, for_search=True, flags=True)
-    return oc.search(trees, [], "C01", payload, assignments=True, family=family)
+    out = oc.search(trees, [], "C01", payload, assignments=True, family=family)
+    # the same small formulas as one HISTORY in this process (fresh objects each time, interleaved, repeated, after calls that raise)
+    small = [t for _, t in gen.all_prop_trees(4, ["a", "b"])][:: 3] + [t for _, t in gen.all_prop_trees(5, ["a", "b", "c"])][:: 97]
+    n, hfails = oc.history_search("C01", payload, small[:170], [], assignments=True)
+    out["evaluations"] += n
+    out["history_calls"] = n
+    out["failures"] = (out["failures"] + hfails)[:10]
+    return out
 
 
 def replay(payload):
